@@ -12,26 +12,335 @@ set_option autoImplicit false
 namespace Ovld.ConcBuild
 open Ovld.Build
 
+/-- the program counters at which the thread holds `_compile_lock` -/
+def Held : PC → Prop
+  | .chk2 | .bNew | .bNames | .bFill _ | .bSwap | .bFlag | .bFail | .rel => True
+  | _ => False
+
+/-- what the shared state (and the lock) must look like for thread `i` to be at this program counter; `D` = the
+    definitions the function had when the threads started -/
+def PcOK (cfg : Cfg) (D : List Nat) (s : S) (lock : Option Nat) (i : Nat) : PC → Prop
+  | .chk1 | .acq | .disp => True
+  | .chk2 | .rel => lock = some i ∧ Safe s
+  | .bNew => lock = some i ∧ s.entry = none ∧ s.compiled = false
+  | .bNames => lock = some i ∧ s.entry = none ∧ s.compiled = false ∧ s.table = []
+  | .bFill rest => lock = some i ∧ s.entry = none ∧ s.compiled = false ∧ s.table ++ rest = D ∧
+      cfg.namesOK D = true ∧ ∀ d ∈ s.table, cfg.bad d = false
+  | .bSwap => lock = some i ∧ s.entry = none ∧ s.compiled = false ∧ s.table = D ∧ AllGood cfg D
+  | .bFlag => lock = some i ∧ s.entry = some D ∧ s.table = D ∧ s.compiled = false
+  | .bFail => lock = some i ∧ s.entry = none ∧ ¬ AllGood cfg D
+  | .look e => e = D ∧ s.entry = some D
+  | .done o => o = .served D D ∨ (o = .error ∧ ¬ AllGood cfg D)
+
+/-- the invariant of all reachable systems -/
+structure Inv (cfg : Cfg) (D : List Nat) (sys : Sys) : Prop where
+  defns : sys.s.defns = D
+  entry : ∀ e, sys.s.entry = some e → e = D ∧ sys.s.table = D
+  free : sys.lock = none → Safe sys.s
+  holder : ∀ k, sys.lock = some k → ∃ t, sys.threads[k]? = some t ∧ Held t.pc
+  pcs : ∀ j t, sys.threads[j]? = some t → PcOK cfg D sys.s sys.lock j t.pc
+
+theorem PcOK_held {cfg : Cfg} {D : List Nat} {s : S} {lock : Option Nat} {i : Nat} {pc : PC}
+    (h : PcOK cfg D s lock i pc) (hh : Held pc) : lock = some i := by
+  cases pc <;> simp [Held] at hh <;> exact h.1
+
+theorem PcOK_free {cfg : Cfg} {D : List Nat} {s : S} {lock : Option Nat} {i : Nat} {pc : PC}
+    (s' : S) (lock' : Option Nat) (i' : Nat) (hm : s.entry = some D → s'.entry = some D)
+    (h : PcOK cfg D s lock i pc) (hh : ¬ Held pc) : PcOK cfg D s' lock' i' pc := by
+  cases pc <;> simp [Held] at hh <;> first | exact h | exact ⟨h.1, hm h.2⟩
+
+theorem Inv.stepFree {cfg : Cfg} {D : List Nat} {sys : Sys} (h : Inv cfg D sys) {i : Nat} {t : Thread}
+    (ht : sys.threads[i]? = some t) (hnh : ¬ Held t.pc) (pc' : PC)
+    (hok : PcOK cfg D sys.s sys.lock i pc') :
+    Inv cfg D { s := sys.s, lock := sys.lock, threads := sys.threads.set i { t with pc := pc' } } := by
+  have hlt : i < sys.threads.length := by
+    rcases List.getElem?_eq_some_iff.1 ht with ⟨hlt, _⟩; exact hlt
+  refine ⟨h.defns, h.entry, h.free, ?_, ?_⟩
+  · intro k hk
+    obtain ⟨tk, htk, hheld⟩ := h.holder k hk
+    have hne : i ≠ k := by
+      intro hik; subst hik; rw [ht] at htk; cases htk; exact hnh hheld
+    refine ⟨tk, ?_, hheld⟩
+    show (sys.threads.set i _)[k]? = some tk
+    rw [List.getElem?_set_ne hne]; exact htk
+  · intro j tj htj
+    change (sys.threads.set i _)[j]? = some tj at htj
+    by_cases hij : i = j
+    · subst hij
+      rw [List.getElem?_set_self hlt] at htj
+      cases htj; exact hok
+    · rw [List.getElem?_set_ne hij] at htj
+      exact h.pcs j tj htj
+
+theorem Inv.stepLock {cfg : Cfg} {D : List Nat} {sys : Sys} (h : Inv cfg D sys) {i : Nat} {t : Thread}
+    (ht : sys.threads[i]? = some t) (hl : sys.lock = none ∨ sys.lock = some i)
+    (s' : S) (lock' : Option Nat) (pc' : PC) (hd : s'.defns = D)
+    (he : ∀ e, s'.entry = some e → e = D ∧ s'.table = D)
+    (hm : sys.s.entry = some D → s'.entry = some D)
+    (hlk : (lock' = none ∧ Safe s' ∧ ¬ Held pc') ∨ (lock' = some i ∧ Held pc'))
+    (hok : PcOK cfg D s' lock' i pc') :
+    Inv cfg D { s := s', lock := lock', threads := sys.threads.set i { t with pc := pc' } } := by
+  have hlt : i < sys.threads.length := by
+    rcases List.getElem?_eq_some_iff.1 ht with ⟨hlt, _⟩; exact hlt
+  refine ⟨hd, he, ?_, ?_, ?_⟩
+  · intro hn
+    rcases hlk with ⟨_, hs, _⟩ | ⟨hs, _⟩
+    · exact hs
+    · change lock' = none at hn; rw [hn] at hs; cases hs
+  · intro k hk
+    change lock' = some k at hk
+    rcases hlk with ⟨hs, _, _⟩ | ⟨hs, hheld⟩
+    · rw [hk] at hs; cases hs
+    · rw [hk] at hs; cases hs
+      refine ⟨{ t with pc := pc' }, ?_, hheld⟩
+      show (sys.threads.set i _)[i]? = _
+      rw [List.getElem?_set_self hlt]
+  · intro j tj htj
+    change (sys.threads.set i _)[j]? = some tj at htj
+    by_cases hij : i = j
+    · subst hij
+      rw [List.getElem?_set_self hlt] at htj
+      cases htj; exact hok
+    · rw [List.getElem?_set_ne hij] at htj
+      have hp := h.pcs j tj htj
+      have hnh : ¬ Held tj.pc := by
+        intro hheld
+        have := PcOK_held hp hheld
+        rcases hl with hl | hl
+        · rw [hl] at this; cases this
+        · rw [hl] at this; cases this; exact hij rfl
+      exact PcOK_free _ _ _ hm hp hnh
+
+theorem Inv.step {cfg : Cfg} {D : List Nat} {sys : Sys} (h : Inv cfg D sys) (i : Nat) :
+    Inv cfg D (stepThread cfg sys i) := by
+  unfold stepThread
+  cases ht : sys.threads[i]? with
+  | none => exact h
+  | some t =>
+    have hpc := h.pcs i t ht
+    have hD := h.defns
+    rcases t with ⟨r, pc⟩
+    cases pc with
+    | chk1 =>
+      dsimp only
+      split
+      · exact h.stepFree ht (by simp [Held]) .disp trivial
+      · exact h.stepFree ht (by simp [Held]) .acq trivial
+    | acq =>
+      dsimp only
+      split
+      · rename_i hl
+        exact h.stepLock ht (Or.inl hl) _ _ .chk2 hD h.entry id (Or.inr ⟨rfl, trivial⟩) ⟨rfl, h.free hl⟩
+      · rename_i j hl
+        split
+        · rename_i hji
+          subst hji
+          obtain ⟨tk, htk, hheld⟩ := h.holder _ hl
+          rw [ht] at htk; cases htk
+          simp [Held] at hheld
+        · exact h
+    | chk2 =>
+      dsimp only
+      obtain ⟨hl, hs⟩ := hpc
+      split
+      · exact h.stepLock ht (Or.inr hl) _ _ .rel hD h.entry id (Or.inr ⟨hl, trivial⟩) ⟨hl, hs⟩
+      · rename_i hc
+        refine h.stepLock ht (Or.inr hl) _ _ .bNew hD h.entry id (Or.inr ⟨hl, trivial⟩) ⟨hl, ?_⟩
+        rcases hs with hs | hs
+        · exact hs
+        · exact absurd hs.1 hc
+    | bNew =>
+      dsimp only
+      obtain ⟨hl, h1, h2⟩ := hpc
+      refine h.stepLock ht (Or.inr hl) _ _ .bNames hD ?_ id (Or.inr ⟨hl, trivial⟩) ⟨hl, h1, h2, rfl⟩
+      intro e he
+      change sys.s.entry = some e at he
+      rw [h1] at he; cases he
+    | bNames =>
+      dsimp only
+      obtain ⟨hl, h1, h2, h3⟩ := hpc
+      split
+      · rename_i hn
+        refine h.stepLock ht (Or.inr hl) _ _ (.bFill _) hD h.entry id (Or.inr ⟨hl, trivial⟩)
+          ⟨hl, h1, h2, ?_, hD ▸ hn, ?_⟩
+        · rw [h3, hD]; rfl
+        · rw [h3]; intro d hd; cases hd
+      · rename_i hn
+        refine h.stepLock ht (Or.inr hl) _ _ .bFail hD h.entry id (Or.inr ⟨hl, trivial⟩) ⟨hl, h1, ?_⟩
+        intro hg
+        rw [hD] at hn
+        exact hn hg.1
+    | bFill rest =>
+      obtain ⟨hl, h1, h2, h3, h4, h5⟩ := hpc
+      cases rest with
+      | nil =>
+        dsimp only
+        refine h.stepLock ht (Or.inr hl) _ _ .bSwap hD h.entry id (Or.inr ⟨hl, trivial⟩)
+          ⟨hl, h1, h2, by simpa using h3, h4, ?_⟩
+        have : sys.s.table = D := by simpa using h3
+        rw [← this]; exact h5
+      | cons d rest =>
+        dsimp only
+        split
+        · rename_i hb
+          refine h.stepLock ht (Or.inr hl) _ _ .bFail hD h.entry id (Or.inr ⟨hl, trivial⟩) ⟨hl, h1, ?_⟩
+          intro hg
+          have := hg.2 d (by rw [← h3]; simp)
+          rw [this] at hb; cases hb
+        · rename_i hb
+          refine h.stepLock ht (Or.inr hl) _ _ (.bFill rest) hD ?_ id (Or.inr ⟨hl, trivial⟩)
+            ⟨hl, h1, h2, ?_, h4, ?_⟩
+          · intro e he
+            change sys.s.entry = some e at he
+            rw [h1] at he; cases he
+          · show (sys.s.table ++ [d]) ++ rest = D
+            simpa using h3
+          · intro x hx
+            change x ∈ sys.s.table ++ [d] at hx
+            rcases List.mem_append.1 hx with hx | hx
+            · exact h5 x hx
+            · simp at hx; subst hx; simpa using hb
+    | bSwap =>
+      dsimp only
+      obtain ⟨hl, h1, h2, h3, h4⟩ := hpc
+      refine h.stepLock ht (Or.inr hl) _ _ .bFlag hD ?_ ?_ (Or.inr ⟨hl, trivial⟩) ⟨hl, ?_, h3, h2⟩
+      · intro e he
+        change some sys.s.defns = some e at he
+        cases he
+        exact ⟨hD, h3⟩
+      · intro _
+        show some sys.s.defns = some D
+        rw [hD]
+      · show some sys.s.defns = some D
+        rw [hD]
+    | bFlag =>
+      dsimp only
+      obtain ⟨hl, h1, h2, h3⟩ := hpc
+      refine h.stepLock ht (Or.inr hl) _ _ .rel hD h.entry id (Or.inr ⟨hl, trivial⟩) ⟨hl, ?_⟩
+      right
+      refine ⟨rfl, ?_, ?_⟩
+      · show sys.s.entry = some sys.s.defns
+        rw [h1, hD]
+      · show sys.s.table = sys.s.defns
+        rw [h2, hD]
+    | bFail =>
+      dsimp only
+      obtain ⟨hl, h0, h1⟩ := hpc
+      have hsafe : Safe (handler sys.s) := Or.inl ⟨rfl, rfl⟩
+      refine h.stepLock ht (Or.inr hl) _ _ (.done .error) hD ?_ ?_ (Or.inl ⟨rfl, hsafe, by simp [Held]⟩)
+        (Or.inr ⟨rfl, h1⟩)
+      · intro e he
+        cases he
+      · intro he
+        rw [h0] at he; cases he
+    | rel =>
+      dsimp only
+      obtain ⟨hl, h1⟩ := hpc
+      exact h.stepLock ht (Or.inr hl) _ _ .disp hD h.entry id (Or.inl ⟨rfl, h1, by simp [Held]⟩) trivial
+    | disp =>
+      dsimp only
+      split
+      · rename_i e he
+        exact h.stepFree ht (by simp [Held]) (.look e)
+          ⟨(h.entry e he).1, (h.entry e he).1 ▸ he⟩
+      · exact h.stepFree ht (by simp [Held]) .chk1 trivial
+    | look e =>
+      dsimp only
+      obtain ⟨he, hen⟩ := hpc
+      subst he
+      rw [(h.entry e hen).2]
+      exact h.stepFree ht (by simp [Held]) (.done (.served e e)) (Or.inl rfl)
+    | done o => exact h
+
+theorem Inv.run {cfg : Cfg} {D : List Nat} (sched : List Nat) : ∀ {sys : Sys}, Inv cfg D sys →
+    Inv cfg D (run cfg sys sched) := by
+  induction sched with
+  | nil => intro sys h; exact h
+  | cons i sched ih => intro sys h; exact ih (h.step i)
+
+theorem Inv.init (cfg : Cfg) (s : S) (hs : Safe s) (routes : List Route) : Inv cfg s.defns (init s routes) := by
+  refine ⟨rfl, ?_, fun _ => hs, ?_, ?_⟩
+  · intro e he
+    change s.entry = some e at he
+    rcases hs with hs | hs
+    · rw [hs.1] at he; cases he
+    · rw [hs.2.1] at he; cases he; exact ⟨rfl, hs.2.2⟩
+  · intro k hk; cases hk
+  · intro j t ht
+    change (routes.map _)[j]? = some t at ht
+    rw [List.getElem?_map] at ht
+    cases hr : routes[j]? with
+    | none => rw [hr] at ht; cases ht
+    | some r =>
+      rw [hr] at ht; cases ht
+      cases r <;> exact trivial
+
+theorem Inv.reach (cfg : Cfg) (s : S) (hs : Safe s) (routes : List Route) (sched : List Nat) :
+    Inv cfg s.defns (ConcBuild.run cfg (ConcBuild.init s routes) sched) :=
+  (Inv.init cfg s hs routes).run sched
+
 /-- **each call returns what it would have returned alone**: no spurious missing-method / ambiguity from a
     partially or doubly filled table -/
 theorem C19_first_calls (cfg : Cfg) (s : S) (hs : Safe s) (routes : List Route) (sched : List Nat)
     (i : Nat) (r : Route) (o : Out)
     (hd : (run cfg (init s routes) sched).threads[i]? = some { route := r, pc := .done o }) :
-    (o = .served s.defns s.defns) ∨ (o = .error ∧ ¬ AllGood cfg s.defns) := by
-  sorry
+    (o = .served s.defns s.defns) ∨ (o = .error ∧ ¬ AllGood cfg s.defns) :=
+  (Inv.reach cfg s hs routes sched).pcs i _ hd
 
 /-- **the function is left in a correct state**: whenever the lock is free the shared state is `Safe`, with the
     definitions unchanged -/
 theorem C19_state_safe (cfg : Cfg) (s : S) (hs : Safe s) (routes : List Route) (sched : List Nat)
     (hl : (run cfg (init s routes) sched).lock = none) :
-    Safe (run cfg (init s routes) sched).s ∧ (run cfg (init s routes) sched).s.defns = s.defns := by
-  sorry
+    Safe (run cfg (init s routes) sched).s ∧ (run cfg (init s routes) sched).s.defns = s.defns :=
+  ⟨(Inv.reach cfg s hs routes sched).free hl, (Inv.reach cfg s hs routes sched).defns⟩
 
-/-- no deadlock: as long as some thread has not finished, some thread can move -/
+/-- a thread that is not finished and is not waiting for a lock held by somebody else moves -/
+theorem stepThread_moves (cfg : Cfg) (sys : Sys) (j : Nat) (t : Thread) (ht : sys.threads[j]? = some t)
+    (hnd : ∀ o, t.pc ≠ .done o) (hacq : t.pc = .acq → sys.lock = none ∨ sys.lock = some j) :
+    stepThread cfg sys j ≠ sys := by
+  intro heq
+  have hlt : j < sys.threads.length := by
+    rcases List.getElem?_eq_some_iff.1 ht with ⟨hlt, _⟩; exact hlt
+  have hpc : ((stepThread cfg sys j).threads[j]?).map (·.pc) = some t.pc := by rw [heq, ht]; rfl
+  unfold stepThread at hpc
+  rw [ht] at hpc
+  rcases t with ⟨r, pc⟩
+  cases pc with
+  | chk1 => dsimp only at hpc; split at hpc <;> simp [List.getElem?_set_self hlt] at hpc
+  | acq =>
+    dsimp only at hpc
+    rcases hacq rfl with hl | hl <;> rw [hl] at hpc <;> simp [List.getElem?_set_self hlt] at hpc
+  | chk2 => dsimp only at hpc; split at hpc <;> simp [List.getElem?_set_self hlt] at hpc
+  | bNew => simp [List.getElem?_set_self hlt] at hpc
+  | bNames => dsimp only at hpc; split at hpc <;> simp [List.getElem?_set_self hlt] at hpc
+  | bFill rest =>
+    cases rest with
+    | nil => simp [List.getElem?_set_self hlt] at hpc
+    | cons d rest => dsimp only at hpc; split at hpc <;> simp [List.getElem?_set_self hlt] at hpc
+  | bSwap => simp [List.getElem?_set_self hlt] at hpc
+  | bFlag => simp [List.getElem?_set_self hlt] at hpc
+  | bFail => simp [List.getElem?_set_self hlt] at hpc
+  | rel => simp [List.getElem?_set_self hlt] at hpc
+  | disp => dsimp only at hpc; split at hpc <;> simp [List.getElem?_set_self hlt] at hpc
+  | look e => simp [List.getElem?_set_self hlt] at hpc
+  | done o => exact hnd o rfl
+
+/-- no deadlock: as long as some thread has not finished, some thread can move.
+    (The binder types `(i : Nat) (t : Thread)` are spelled out: with `∃ i t, …` as first written the statement did not
+    elaborate — `t.pc` before the type of `t` is known; the meaning is unchanged.) -/
 theorem C19_progress (cfg : Cfg) (s : S) (hs : Safe s) (routes : List Route) (sched : List Nat)
-    (hnd : ∃ i t, (run cfg (init s routes) sched).threads[i]? = some t ∧ ∀ o, t.pc ≠ .done o) :
+    (hnd : ∃ (i : Nat) (t : Thread), (run cfg (init s routes) sched).threads[i]? = some t ∧ ∀ o, t.pc ≠ .done o) :
     ∃ j, stepThread cfg (run cfg (init s routes) sched) j ≠ run cfg (init s routes) sched := by
-  sorry
+  have hinv := Inv.reach cfg s hs routes sched
+  generalize run cfg (init s routes) sched = sys at hnd hinv
+  obtain ⟨i, t, ht, hnd⟩ := hnd
+  cases hl : sys.lock with
+  | none => exact ⟨i, stepThread_moves cfg sys i t ht hnd (fun _ => Or.inl hl)⟩
+  | some k =>
+    obtain ⟨tk, htk, hheld⟩ := hinv.holder k hl
+    refine ⟨k, stepThread_moves cfg sys k tk htk ?_ ?_⟩
+    · intro o ho; rw [ho] at hheld; simp [Held] at hheld
+    · intro ho; rw [ho] at hheld; simp [Held] at hheld
 
 /-- non-vacuity: two threads racing the first call of a two-method function, pre-empted in the middle of the fill -/
 example :
@@ -39,6 +348,6 @@ example :
     let s : S := { defns := [1, 2] }
     let sys := run cfg (init s [.obj, .fn]) [0, 0, 0, 0, 0, 0, 1, 1, 1, 1, 1, 0, 0, 0, 0, 0, 0, 0, 1, 1, 1, 1, 1, 1, 1]
     sys.threads.map (·.pc) = [.done (.served [1, 2] [1, 2]), .done (.served [1, 2] [1, 2])] := by
-  sorry
+  decide
 
 end Ovld.ConcBuild
